@@ -334,7 +334,7 @@ def gen_inputs(c, k):
     # thorough: every opcode 0..15, more length variants, encryption changes as inputs, both OOB settings, all answer timings
     pdus = list(PROTOCOL_PDUS) + [(3, 0, 2), (3, 2, 0), (4, 1, 0), (12, 2, 0), (13, 2, 0), (1, 1, 0), (1, 2, 0)]
     pdus += [(op, 0, 0) for op in (0, 2, 5, 6, 7, 8, 9, 10, 11, 14, 15)]
-    return reqs, pdus, ([-1, 0, 1] if nc else [-1]), ["FALSE", "TRUE"], [], True, {0: 7, 1: 9, 2: 8}[k["kind"]]
+    return reqs, pdus, ([-1, 0, 1] if nc else [-1]), ["FALSE", "TRUE"], [], True, {0: 7, 1: 8, 2: 8}[k["kind"]]
 
 
 def tla_set(tuples):
@@ -485,15 +485,16 @@ def run_sm(c):
         behs = [gen[cfg_name(k)] for k in configs]
         for f in f_mc:
             f.result()
-    traces, owner = [], {}
+    jobs = []
     for k, exe, bs in zip(configs, exes, behs):
         c.note("%s: %d behaviours (transition cover), %d inputs" % (cfg_name(k), len(bs), sum(len(b) for b in bs)))
         c.sample({"config": k, "behaviour": bs[len(bs) // 2]}, limit=8)
-        nparts = max(1, min(4, sum(len(b) + len(SUFFIX) for b in bs) // 25000))
+        nparts = max(1, min(4, sum(len(b) + len(SUFFIX) for b in bs) // (25000 if c.quick else 60000)))
         for i, part in enumerate(vlib.chunks(bs, nparts)):
-            tp = run_script(c, exe, "sm_%s_%d" % (cfg_name(k), i), [l for b in part for l in script_of(b)])
-            traces.append(tp)
-            owner[tp] = k
+            jobs.append((k, exe, "sm_%s_%d" % (cfg_name(k), i), part))
+    with ThreadPoolExecutor(8) as ex:
+        traces = list(ex.map(lambda j: run_script(c, j[1], j[2], [l for b in j[3] for l in script_of(b)]), jobs))
+    owner = {tp: j[0] for tp, j in zip(traces, jobs)}
     verdicts = validate_sm(c, traces, c.prop)
     counts = {}
     for tp, v in verdicts.items():
